@@ -74,6 +74,13 @@ def setup():
   import scales
   assert scales.__file__.startswith(C.REPO), scales.__file__
   import scales.timer_queue as tqm
+  # the module-level queues created at import time are not under test: their (never started) workers must not
+  # run on the hub used by the 'real' cases
+  for name in ('GLOBAL_TIMER_QUEUE', 'LOW_RESOLUTION_TIMER_QUEUE'):
+    try:
+      getattr(tqm, name)._worker.kill(block=False)
+    except Exception:
+      pass
   V.install(tqm)
   _S['tqm'] = tqm
   import logging
@@ -83,6 +90,9 @@ def setup():
       _S['critical'] = _S.get('critical', 0) + 1
   tqm.LOG.addHandler(_Count())
   tqm.LOG.propagate = False
+  import atexit
+  # at interpreter shutdown TimerQueue.__del__ would call kill() on greenlets that are being finalised (stderr noise only)
+  atexit.register(lambda: setattr(tqm.TimerQueue, '__del__', lambda self: None))
 
 
 # ---------------------------------------------------------------------------------------------
@@ -304,6 +314,11 @@ def run_real(case):
     if tq._worker.dead and not flags.get('worker_exc'):
       flags['worker_exc'] = type(tq._worker.exception).__name__
       events.append(['worker-died', flags['worker_exc'], tk(w.now)])
+    if w.livelock:
+      if not flags.get('livelock'):
+        flags['livelock'] = True
+        events.append(['livelock', tk(w.now)])
+      return
     events.append(['quiet', tk(w.now)])
   try:
     if case.get('t0'):
@@ -311,6 +326,8 @@ def run_real(case):
       events.append(['tick', tk(w.now)])
     for op in case['ops']:
       t = op['op']
+      if w.livelock:
+        break
       if t in ('sched', 'cancel'):
         call(op)
       elif t == 'tick':
